@@ -279,4 +279,18 @@ class C10(Check):
         return res
 
 
+# expressions whose treatment could depend on what was processed before (type caches keyed too coarsely)
+PAIR_MENU = [
+    "{'a': 'x', 'b': e.y}", "{'a': 1, 'b': e.z}['a'] if e.c else 2", "{'a': 1.5, 'b': e.z}['a'] if e.c else 2.5",
+    "{'a': 'x', 'b': e.z}['a'] if e.c else 'y'", "{'o': {'a': 1}}.o.a if e.c else 2", "{'o': {'a': 's'}}.o.a if e.c else 't'",
+    "{'a': e.x}.a", "({'a': 1}, 2)[0]", "{'a': (e.x > 1)}.a if e.c else (e.y > 2)", "{'a': 1}.a + 1",
+    "{'b': 1, 'a': 's'}.a if e.c else 't'", "-e.x", "e.m(1, k=2)", "(e.x, e.y)[0]", "{'a': True}['a'] and e.x > 1",
+]
+
+
+def _pair_menu(self, tier):
+    return [("expressions", "run_expr", s) for s in PAIR_MENU]
+
+
+C10.pair_menu = _pair_menu
 CHECK = C10()
